@@ -362,6 +362,28 @@ impl WorldB {
                 }
                 self.note_client_state(slot, obs);
             }
+            K_SERVERDISC if op.b == 1 => {
+                // the application names an id that is not connected — half-open at some address, or unknown: nothing is
+                // reported and nothing changes (a handshake in progress is no session)
+                let connected = self.server.clients_id();
+                let mut half_open: Vec<u64> = self.server.verif_pending().into_iter().map(|(_, id)| id).filter(|id| !connected.contains(id)).collect();
+                half_open.sort();
+                half_open.dedup();
+                let nids = self.cfg.get("nids").max(1);
+                let id = if !half_open.is_empty() { half_open[op.a as usize % half_open.len()] } else { 1 + op.a % nids };
+                if !connected.contains(&id) {
+                    obs.count("oracle.C10.disconnect_of_unconnected_id_is_inert");
+                    let before = self.server_snap();
+                    let res = own(self.server.disconnect(id));
+                    let after = self.server_snap();
+                    if !matches!(res, Res::None) {
+                        obs.violate("C10", "disconnect-event-without-connect", "half-open-or-unknown-id", format!("disconnect({}) produced a result", id));
+                    }
+                    if before != after {
+                        obs.violate("C10", "disconnect-of-unconnected-id-changed-table", "disconnect", format!("id {}", id));
+                    }
+                }
+            }
             K_SERVERDISC => {
                 let mut ids = self.server.clients_id();
                 ids.sort();
